@@ -38,6 +38,10 @@ def run(chk, repo: Repo):
     chk.rule("C08-R3", "tree recursion: guard s'==1, outermost state by direction, selection ratio and update order, paired copy, U-turn with both momenta", floor=2)
     chk.rule("C08-R4", "transition: log-domain slice, accept guard, paired cache update, count update after the test, loop condition, tuning statistic", floor=2)
     chk.rule("C08-R5", "dual averaging: H_bar, epsilon, epsilon_bar updates with the documented dependence and signs", floor=2)
+    chk.rule("C08-R6", "the cached (log-density, gradient) pair of the stateful NUTS always belongs to current_point: evaluated there, or adopted "
+                       "together with the point", floor=5)
+    from ..cachepoint import cache_point_rule
+    cache_point_rule(chk, repo, "C08-R6", [repo.cls("cuqi/experimental/mcmc/_hmc.py:NUTS")])
     for mod, cls, iface in IMPLS:
         ci = repo.cls(f"{mod}:{cls}")
         _leapfrog(chk, repo, ci)
